@@ -128,6 +128,23 @@ def enumerate_operators(rep, tier, impl):
             half = out[1][len("(list "):-1].split(") (s")
             if len(half) == 2 and half[0] + ")" != "(s" + half[1]:
                 changed.setdefault(f, (prog, "changes an operand"))
+    # the value such a form produces is a value of its own: changing it in place afterwards (append, element assignment, put) does not
+    # reach the operands, and changing an operand does not reach it
+    FRESH = ["a0 + a1", "a0 - a1", "a0 * a1", "a0 + []", "[] + a0", "a0 + <<>>", "<<>> + a0", "a0 - []", "a0 * 1", "a0[0 to 1]", "a0[0 to]", "a0[a1 to]", "[...a0]", "[...a0, ...a1]", "<<<...a0>>>",
+             "[x for x in a0]", "<<x for x in a0>>", "[x for x in a0 for y in [1]]", "[a0, a1]", "<<a0, a1>>", "<<<'k' => a0>>>", "def f(p...) p...; f(...a0)", "string(a0) + ''"]
+    for f in FRESH:
+        for i, j in itertools.product(range(len(POOL)), repeat=2):
+            if not (POOL[i][0] in "['" or (POOL[i].startswith("<<") and not POOL[i].startswith("<<<"))):
+                continue          # a0 is a list, a set or a string (a map or object operand may legitimately be held by the result as an element)
+            holds = f in ("[a0, a1]", "<<a0, a1>>", "<<<'k' => a0>>>")       # these hold the operands themselves: only the first half applies
+            prog = ("def a0 = %s; def a1 = %s; def before = string([a0, a1]); def r = do %s catch all NULL end; do append(r, 99) catch all 0 end; do r[0] = 98 catch all 0 end; "
+                    "do put(r, 'zz', 97) catch all 0 end; do insert_at(r, 0, 96) catch all 0 end; def mid = string([a0, a1]); def rs = string(r); "
+                    "do append(a0, 95) catch all 0 end; do a0[0] = 94 catch all 0 end; [before == mid, rs == string(r)]") % (POOL[i], POOL[j], f)
+            I.environment = I.base_environment.newEnv()
+            out = impl.run_src(I, prog, seconds=2.0)
+            n += 1
+            if out[0] == "val" and out[1] != "(list (b 1) (b 1))" and not (holds and out[1] == "(list (b 1) (b 0))"):
+                changed.setdefault("fresh:" + f, (prog, "gives a value that shares storage with an operand"))
     for f, (prog, what) in sorted(changed.items()):
         rep.violation("input", "the form %s %s: %s" % (f, what, prog), check="operator", function=f, program=prog, want="operands unchanged")
     rep.count(n)
